@@ -478,6 +478,12 @@ def _run_flow(case):
             raise Runaway()
         return orig_starting(self, child)
 
+    pre_fired = 0
+    for src, c, dst in case.get("pre", []):
+        # stale memory: the all-of trigger of `dst` has heard this emitter before the run starts
+        mark = len(N.CALL_LOG)
+        ns[dst].signals.input.accumulate_and_run(ns[src].signals.output[CH[c]])
+        pre_fired += len(N.CALL_LOG) - mark
     hyp = _wf_hypothesis(ns)
     by_label_early = {nd.label: i for i, nd in enumerate(ns)}
     outcome, errs = "ok", []
@@ -529,6 +535,8 @@ def _run_flow(case):
     ]
     if outcome not in ("ok", "failedchild"):
         obs.append(f"outcome {outcome}")
+    if pre_fired:
+        obs.append(f"pre-arrivals fired {pre_fired} (generator bug: they must not complete a round)")
     if (outcome == "failedchild") != bool(errs):
         obs.append(f"outcome {outcome} but errs {errs}")
     kinds = [nd["kind"] for nd in case["nodes"]]
@@ -541,6 +549,7 @@ def _run_flow(case):
         "flow_with_allof": 1 if any(a for (_s, _c, _d, a, _v) in case["sig"]) else 0,
         "flow_with_failure": 1 if failed else 0,
         "flow_refused_runs": len(fired) - len(exec_log),
+        "flow_with_stale_trigger_memory": 1 if case.get("pre") else 0,
         f"flow_outcome:{outcome.split(':')[0]}": 1,
     }
     return {"obs": obs, "outcome": outcome, "exec": exec_log, "calls": calls, "outs": outs, "stats": stats,
@@ -562,6 +571,8 @@ def _flow_model_lines(case):
     for src, c, dst, acc, _via in case["sig"]:
         lines.append(f"sconn {_sig(src, c)} {dst} {1 if acc else 0}")
     lines.append("starters " + " ".join(str(i) for i in case["starters"]))
+    for src, c, dst in case.get("pre", []):
+        lines.append(f"pre {_sig(src, c)} {dst}")
     return lines
 
 
@@ -1159,6 +1170,22 @@ def _to_macro(rng, case):
     return case
 
 
+def _with_stale_memory(rng, case):
+    """arrivals at all-of triggers BEFORE the run (left-overs of an interrupted run): a strict subset of what the
+    trigger is connected to, so that nothing fires at that moment; a fresh run must start from empty triggers"""
+    ups = {}
+    for src, c, dst, acc, _via in case["sig"]:
+        if acc and (src, c) not in ups.setdefault(dst, []):
+            ups[dst].append((src, c))
+    pre = []
+    for dst, lst in ups.items():
+        extra = 1 if (case.get("ui") and dst in case["starters"]) else 0
+        if len(lst) + extra >= 2 and rng.random() < 0.7:
+            k = rng.randint(1, len(lst) - 1 + extra)
+            pre += [[src, c, dst] for (src, c) in rng.sample(lst, k)]
+    return {**case, "pre": pre} if pre else case
+
+
 def _gen_flow(rng):
     for _ in range(50):
         case = rng.choice(TEMPLATES)(rng)
@@ -1166,6 +1193,8 @@ def _gen_flow(rng):
             case = _perturb(rng, case)
         if rng.random() < 0.3:
             case = _to_macro(rng, case)
+        if rng.random() < 0.35:
+            case = _with_stale_memory(rng, case)
         if _valid_flow(case) and _terminates(case):
             return case
     return _tpl_chain(rng)
@@ -1235,6 +1264,10 @@ def corpus():
            "sig": [[0, 0, 2, 0, "rshift"], [0, 0, 1, 0, "rshift"]], "starters": [0]}
     yield {**abc, "host": "macro"}
     yield abc
+    # stale memory: the join 3 has already heard `2.ran` when the run starts; it must still wait for 1 AND 2
+    yield {"kind": "flow", "nodes": [_node("term", ["d", "d", "d"]) for _ in range(4)], "data": [],
+           "sig": [[0, 0, 1, 0, "rshift"], [1, 0, 2, 0, "rshift"], [1, 0, 3, 1, "lshift"], [2, 0, 3, 1, "lshift"]],
+           "starters": [0], "pre": [[2, 0, 3]]}
     # a macro input feeding two children: its UI node runs first, the hand-named starting node waits for it
     yield {"kind": "flow", "host": "macro", "ui": True, "nodes": [_node("term", ["d", "d", "d"]) for _ in range(3)],
            "data": [[0, 0, 3], [1, 1, 3], [2, 0, 1]], "sig": [[0, 0, 1, 0, "rshift"], [1, 0, 2, 1, "lshift"], [0, 0, 2, 1, "lshift"]],
@@ -1294,3 +1327,5 @@ def shrink_candidates(case):
                 yield c
         if len(case["starters"]) > 1:
             yield {**case, "starters": case["starters"][:1]}
+        if case.get("pre"):
+            yield {k: v for k, v in case.items() if k != "pre"}
